@@ -54,6 +54,7 @@ def main():
         else:
             i += 1
     os.environ["PYVC_REPO"] = tree
+    os.environ["VERIF_TIER_ACTIVE"] = tier
     if replay:
         from checks import driver
         rep = json.load(open(replay))
